@@ -9,11 +9,17 @@ first = {}
 for f in sys.argv[1:]:
     for k, v in json.load(open(f)).items():
         first[k] = v.get("status")
+cands = {}
 for f in sorted(glob.glob(os.path.join(ROOT, "seeded", "results_*.json"))):
     for k, v in json.load(open(f)).items():
-        if k in first and first[k] != v.get("status"):
-            v["first_pass"] = first[k]
-        res[k] = v
+        cands.setdefault(k, []).append(v)
+for k, vs in cands.items():
+    # an id that was run again after the machinery had been strengthened appears twice: the later
+    # run is the one that differs from the first pass (runs are only repeated after a miss)
+    v = next((x for x in vs if x.get("status") == "caught"), vs[-1])
+    if k in first and first[k] != v.get("status"):
+        v["first_pass"] = first[k]
+    res[k] = v
 json.dump(res, open(os.path.join(ROOT, "seeded", "results.json"), "w"), indent=1)
 r4 = {k: v for k, v in res.items() if k.endswith("-4")}
 print(len(r4), "round-3 results;", sum(1 for v in r4.values() if v.get("status") == "caught"), "caught;",
